@@ -623,7 +623,7 @@ class CoqBatch:
             flat = [c for _, cs in items for c in cs]
             import time
             t0 = time.time()
-            ok, failing, log = coqcases.run_cases(f'{name}_{k}', 'Graph Rings', [c[3] for c in flat], extra=defs,
+            ok, failing, log = coqcases.run_cases(f'{name}_{k}', 'Graph Rings RingsFilter', [c[3] for c in flat], extra=defs,
                                                   shard=max(1, len(flat)), timeout=900)
             self.times.append((round(time.time() - t0, 1), len(flat), flat[0][1][:40]))
             return ok, [flat[i][:3] for i in failing], log, len(flat)
@@ -683,6 +683,64 @@ def mol_cases(m, tag, fam, with_ref=True, max_ref_atoms=26, max_ref_rings=8):
             cases.append(('oracle', tag, 'mcb_ref is a basis', f'is_cycle_basis g{i} (mcb_ref g{i})'))
         else:
             cases.append(('oracle', tag, {'sssr': sssr, 'what': 'total size vs mcb_ref'}, f'c_ref g{i} rs{i}'))
+    return defs, cases
+
+
+def filter_cases(ck, m, tag, cap=24):
+    """the selection phase on the REAL candidate stream of this molecule: _rings_filter as a whole, and every call of
+    _connected_rings / _is_condensed_ring / _get_unique_chord it makes (recorded by wrapping the module functions)"""
+    from chython.algorithms import rings as R
+    nu = m.rings_count
+    if nu < 1:
+        return '', []
+    bonds = R._skin_graph(m.not_special_connectivity)
+    cands = [tuple(c) for c in R._c_set(*R._make_pid(R._bfs(bonds)))]
+    log = []
+    orig = (R._connected_rings, R._is_condensed_ring, R._get_unique_chord)
+
+    def wrap(kind, fn, arg_of):
+        def inner(*a):
+            arg = arg_of(*a)
+            try:
+                out = fn(*a)
+            except Exception as e:
+                log.append((kind, arg, 'Err ' + EXN.get(type(e).__name__, 'OtherError')))
+                raise
+            log.append((kind, arg, [tuple(r) for r in out] if kind == 'cr' else out))   # the caller mutates the returned list
+            return out
+        return inner
+    R._connected_rings = wrap('cr', orig[0], lambda rings, seen: [tuple(r) for r in rings])
+    R._is_condensed_ring = wrap('icr', orig[1], lambda c, sssr, seen: (tuple(c), [tuple(r) for r in sssr]))
+    R._get_unique_chord = wrap('guc', orig[2], lambda ring, common: (tuple(ring), sorted(common)))
+    try:
+        try:
+            res = 'Ok ' + zll(R._rings_filter(iter(cands), nu))
+        except Exception as e:
+            res = 'Err ' + EXN.get(type(e).__name__, 'OtherError')
+    finally:
+        R._connected_rings, R._is_condensed_ring, R._get_unique_chord = orig
+    i = next(_uid)
+    defs = f'Definition cs{i} : list ring := {zll(cands)}.'
+    cases = [('corr', tag, '_rings_filter on the real candidate stream', f'c_rf cs{i} {nu}%nat ({res})')]
+    ck.count('selection phase: ' + ('first phase only' if not log else 'condensed-ring phase reached'))
+    seen = set()
+    for kind, arg, out in log:
+        key = repr((kind, arg))
+        if key in seen or len(cases) > cap:
+            continue
+        seen.add(key)
+        ck.count('selection phase call: ' + kind)
+        if kind == 'cr':
+            e = out if isinstance(out, str) else 'Ok ' + zll(out)
+            cases.append(('corr', tag, '_connected_rings' + repr(arg)[:200], f'c_cr {zll(arg)} ({e})'))
+        elif kind == 'icr':
+            e = out if isinstance(out, str) else 'Ok ' + b(out)
+            cases.append(('corr', tag, '_is_condensed_ring' + repr(arg)[:200], f'c_icr {zl(arg[0])} {zll(arg[1])} ({e})'))
+        else:
+            if isinstance(out, str):
+                continue
+            e = 'None' if out is None else f'(Some {zl(out)})'
+            cases.append(('corr', tag, '_get_unique_chord' + repr(arg)[:200], f'c_guc {zl(arg[0])} {zl(arg[1])} {e}'))
     return defs, cases
 
 
@@ -1181,7 +1239,7 @@ def run(ck):
     import time
     t0 = time.time()
     timing = ck.extra.setdefault('timing_s', {})
-    proved = common.standard_proof_steps(ck, translators=[])   # C06 depends on no generated table
+    proved = common.standard_proof_steps(ck, translators=[], extra_targets=['model/RingsFilter.vo'])   # C06 depends on no generated table
     timing['proof build + audit'] = round(time.time() - t0, 1)
     t0 = time.time()
     quick = ck.tier == 'quick'
@@ -1217,6 +1275,8 @@ def run(ck):
                 batch.add(*mol_cases(m, tag, fam))
                 sent.add(tag)
                 n_coq += 1
+                if len(m) <= 70:
+                    batch.add(*filter_cases(ck, m, tag))
             except Exception as e:  # sssr raising is already reported by the search
                 stats[f'not sent to Coq ({type(e).__name__})'] += 1
         for t in range(renumber):
@@ -1269,6 +1329,7 @@ def run(ck):
             sizes = search_one(ck, m, f'graph{n}:{es}', fam, stats=stats)
             if n <= (4 if quick else 5) or first:
                 batch.add(*mol_cases(m, f'graph{n}:{es}', fam))
+                batch.add(*filter_cases(ck, m, f'graph{n}:{es}'))
                 sent.add(f'graph{n}:{es}')
                 n_coq += 1
                 if first and n >= 4:
@@ -1356,7 +1417,7 @@ def run(ck):
     chk_fail = [f for f in failing if f[0] == 'checker']
     ora_fail = [f for f in failing if f[0] == 'oracle']
     ck.oblige('correspondence: _connected_components, _skin_graph, rings_count, not_special_connectivity, _canonic_ring, _ring_scissors, '
-              '_ring_adjacency, atoms_rings(_sizes), aromatic_rings, ring marks of calc_labels == Coq model', ok and not corr_fail, 'correspondence',
+              '_ring_adjacency, atoms_rings(_sizes), aromatic_rings, ring marks of calc_labels, _rings_filter / _connected_rings / _is_condensed_ring / _get_unique_chord == Coq model', ok and not corr_fail, 'correspondence',
               log[-1500:] or repr(corr_fail[:5]))
     rejected = {tag for _, tag, _ in chk_fail}
     only_coq = sorted(rejected - INVALID)            # rejected by the verified checker, accepted by the Python oracle
